@@ -47,6 +47,17 @@ check("C07",
       "property-based differential testing against a sequential reference (dynamic scoping) + LIFO invariant over the context event log",
       "DESIGN.md 5/C07")
 
+check("C08",
+      "Generated histories of 1-4 programs run one after another on the same thread without resetting the scheduler; every program has arbitrary failure points (task steps, items, raising and hard-failing flushes, failing lazy futures, contexts whose pause/resume raise, NonAsyncContext, MAX_TASK_STACK_SIZE lowered below the program's need) and nested synchronous re-entry. Inside bodies get_active_task() must be the running task at every statement and after each nested synchronous call; after each computation get_active_task() is None, the scheduler retains no task, str(scheduler) works, and a fixed canary computation (own batch kind, context, nested structure) produces exactly the trace it produces on a fresh scheduler.",
+      "Trusted: the canary's fresh-scheduler trace (recorded in the same process); leftover *batches* are cancelled by the harness between computations (the statement speaks of tasks). The in-body monitor is not consulted under a lowered stack limit.",
+      "model-based history testing: Hypothesis-generated sequences of fault-injected programs against a 'fresh scheduler' canary oracle + state invariants after every step",
+      "DESIGN.md 5/C08")
+check("C20",
+      "Tie-free generated programs (synchronous re-entry incl. the re-entry comb shape, failures, several batch kinds, DebugBatchItem, contexts) are run under default options and then under every single boolean debug option, all-on, and generated subsets (thorough: all pairs with the three options that touch scheduling paths), with SCHEDULER_STATE_DUMP_INTERVAL=0 so dump code executes and a harness clock stepping 1 us .. 1e11 us per reading, on both builds. Metamorphic oracle: outcome, every transcript, flush compositions and the context event log must be identical to the default-options run.",
+      "Trusted: tie-freeness of generated programs (distinct constant priority per kind), the harness clock replacing asynq.scheduler.utime. Diagnostic text is only required to be produced without raising.",
+      "metamorphic property-based testing: same generated program under enumerated option configurations and generated clock magnitudes must yield the identical observable trace",
+      "DESIGN.md 5/C20")
+
 for pid in ["C%02d" % i for i in range(1, 21)]:
     if pid not in CHECKS:
         PENDING[pid] = "check under construction in this framework (designed in DESIGN.md section 5, not yet registered)"
